@@ -4,16 +4,11 @@ Model: AslModel/Tasks.lean.  Helper lemmas: Proofs/Lemmas/Tasks.lean.
 All theorems are stated for `Quirks.none` (the property's reading).
 -/
 import Proofs.Lemmas.Tasks
+import Proofs.Lemmas.Base64RoundTrip
 namespace Asl.C15
 open Asl Asl.Tasks
 
 /-! ### tokens -/
-
-/- Full statement (not proved here; the base64 ∘ UTF-8 wrapper is exercised by the correspondence
-   stream `tokens` on every run, encode and decode side):
-     theorem token_roundtrip (e q : Str) (he : ':' ∉ e) (hq : ':' ∉ q) (hf : isPrefix replyFamily q = true) :
-       decodeToken (encodeToken (tokenCid e) q) = some (tokenCid e, q)
-   What is missing is `b64Dec (b64Enc bs) = some bs` for byte lists and `utf8Dec (utf8Str s) = some s`. -/
 
 /-- decode (encode c r) = some (c, r), on the raw token text, for event ids and reply queue names
 free of the separator -/
@@ -32,6 +27,16 @@ theorem token_roundtrip_partial (e q : Str) (he : ':' ∉ e) (hq : ':' ∉ q) (h
   rw [breakAt_append ':' _ _ hs]
   simp only [hc, endsWith_append, hf]
   rfl
+
+/-- decode (encode c r) = some (c, r): the opaque token (base64 of the UTF-8 text) presented back to
+SendTaskSuccess / SendTaskFailure decodes to exactly the correlation id and reply queue it was
+minted from — for every event id and every reply queue name free of the separator. -/
+theorem token_roundtrip (e q : Str) (he : ':' ∉ e) (hq : ':' ∉ q) (hf : isPrefix replyFamily q = true) :
+    decodeToken (encodeToken (tokenCid e) q) = some (tokenCid e, q) := by
+  unfold decodeToken encodeToken
+  rw [b64_roundtrip _ (utf8Str_lt _)]
+  simp only [utf8Dec_utf8Str]
+  exact token_roundtrip_partial e q he hq hf
 
 example : decodeRaw (rawToken (tokenCid ['e', '1']) (replyFamily ++ ['-', 'i'])) =
     some (tokenCid ['e', '1'], replyFamily ++ ['-', 'i']) :=
